@@ -442,7 +442,8 @@ def family_scope(tier):
         exprs.append(('single %s condition' % i, inner_if[i].replace(' in y', ' in $a')))
     exprs += [('genexp in list', '[list((W := x) for x in y) for y in $a]'), ('list in genexp', 'list([(W := x) for x in y] for y in $a)'),
               ('triple nest', '[[[(W := x) for x in y] for y in z] for z in $a]'), ('outer condition', '[[x for x in y] for y in $a if (W := y)]'),
-              ('lambda in comprehension', '[[(lambda: (W := x))() for x in y] for y in $a]'),
+              ('single genexp element', 'list((W := x) for x in $a)'), ('single genexp condition', 'list(x for x in $a if (W := x))'),
+              ('genexp in genexp', 'list(list((W := x) for x in y) for y in $a)'),
               ('both levels', '[[(W := x) for x in y if (V := y)] for y in $a]')]
     readers = ['$b = W', 'return W', 'def $q():\n    return W', 'W += 1']
     for k, (tag, e) in enumerate(exprs):
